@@ -182,9 +182,13 @@ func c12TxList(n int) Txs {
 // body with any transaction replaced cannot keep the header's DataHash. (The inner hash is the
 // collision-free uninterpreted function; what is checked is that the tree construction leaves no
 // leaf out - at every length 1..6, odd ones included.)
-//verif:opt unwind=12 budget_s=600 split=6
+//verif:opt unwind=12 budget_s=600 split=6 thorough.split=9
 func H_C12_transaction_root_commits_to_every_transaction() {
-	n := 1 + verifCase(6)
+	maxN := 6
+	if verifThorough() {
+		maxN = 9
+	}
+	n := 1 + verifCase(maxN)
 	a, b := c12TxList(n), c12TxList(n)
 	ra, rb := a.Hash(), b.Hash()
 	verifReach("roots")
